@@ -1049,6 +1049,12 @@ impl<'a> Concrete<'a> {
     pub fn get_padding(&self) -> Option<u8> {
         self.writer().and_then(|w| w.get_padding())
     }
+
+    /// The public `write_into_unchecked` (None for chunk / item builders, whose unchecked writers
+    /// are not public).
+    pub fn write_unchecked(&self, buf: &mut [u8]) -> Option<usize> {
+        self.writer().map(|w| w.write_into_unchecked(buf))
+    }
 }
 
 /// Execute the plan's history against the real builders under hash key `hash_key`
